@@ -2286,5 +2286,5 @@ func init() {
 	vh.Enum("corpus", enumCorpus, judgeCorpus)
 	vh.Enum("definitions", enumDefs, judgeDef)
 	vh.Enum("fields", enumFields, judgeMutation)
-	vh.Rapid("mutations", 2400, 96000, genMutation, judgeMutation)
+	vh.Rapid("mutations", 1800, 96000, genMutation, judgeMutation)
 }
